@@ -236,6 +236,20 @@ theorem poll_bounded (d : Digest) (o : Replica) (bo : Nat) (sc : Scripts) (tr : 
   obtain ⟨ext, h1, _, _, h4⟩ := pollOne_ext d o bo sc tr
   rw [h1]; simp; omega
 
+/-- **C33 (0)** what a 200 of a local origin to a replicate request means (the assumption the executor's
+ordering rests on, tied to origin/blobserver by the `originrep` harness entry): the blob is in the
+remote origin cluster when the answer is given; a blob the origin does not have is never answered 200. -/
+theorem replicate_ok_means_remote_has (o : Origin) (d : Digest) (up : Bool)
+    (h : (replicateToRemote o d up).2 = .ok) : d ∈ (replicateToRemote o d up).1.remote ∧ d ∈ o.cache := by
+  unfold replicateToRemote at h ⊢
+  by_cases hc : d ∈ o.cache
+  · cases up with
+    | false => simp [hc] at h
+    | true =>
+      simp only [hc, if_true]
+      by_cases hr : d ∈ o.remote <;> simp [hr]
+  · by_cases hb : d ∈ o.backend <;> simp [hc, hb] at h
+
 /-! ### composition with the retry manager (C30) -/
 
 /-- **C33 (4)** A replication task leaves the retry table only by an execution in which the remote
